@@ -754,3 +754,29 @@ Lemma fs_orphan_output_witness :
   map f_ptr (vis_after MSFs wfile w_store (fst r)) = [1; 2; 3; 4; 100] /\
   map f_ptr (vis_after MSMemory wfile w_store (fst r)) = [1; 2; 3; 4].
 Proof. vm_compute. auto. Qed.
+
+(* ------------------------------------------------------------------ *)
+(* the engine-level instance                                            *)
+
+Lemma plan_groups_srcs c : forall fgroups porders,
+  flat_map g_srcs (plan_groups c porders fgroups) = map f_ptr (concat fgroups).
+Proof.
+  induction fgroups as [|g gs IH]; intros porders; simpl; [reflexivity|].
+  destruct porders as [|po pos]; simpl; rewrite map_app, IH; reflexivity.
+Qed.
+
+Lemma plan_groups_length c : forall fgroups porders, length (plan_groups c porders fgroups) = length fgroups.
+Proof.
+  induction fgroups as [|g gs IH]; intros porders; simpl; [reflexivity|].
+  destruct porders as [|po pos]; simpl; rewrite IH; reflexivity.
+Qed.
+
+(* C12: the delete list of the Update is exactly the grouped files, the write list one fresh
+   pointer per group *)
+Lemma merge_engine_update_args c fo ha outp porders files ws ds ok :
+  In (Ev (KUpdate ws ds) ok) (fst (merge_engine c fo ha outp porders files)) ->
+  ds = map f_ptr (concat (plan_files c files)) /\ ws = map outp (seq 0 (length (plan_files c files))).
+Proof.
+  unfold merge_engine. intro H. apply merge_prog_update_args in H as [-> ->].
+  unfold the_dels, the_outs, outs_from. rewrite plan_groups_srcs, plan_groups_length. auto.
+Qed.
